@@ -90,14 +90,30 @@ def main(argv=None):
     t0 = time.time()
     import tempfile
 
-    outdir = tempfile.mkdtemp(prefix="vf-res-", dir=os.environ.get("VERIF_SCRATCH", "/var/tmp"))
+    # every scratch directory of this run (the children's too) lives under one root per filesystem, removed when the
+    # run ends - also when a child was killed by the watchdog and could not clean up after itself
+    import shutil
+
+    import signal
+
+    signal.signal(signal.SIGTERM, lambda *a: sys.exit(143))  # so that the finally below runs
+    base = os.environ.get("VERIF_SCRATCH", "/var/tmp")
+    os.makedirs(base, exist_ok=True)
+    run_root = tempfile.mkdtemp(prefix="vf-run-", dir=base)
+    roots = [run_root]
+    os.environ["VERIF_RUN_ROOT"] = run_root
+    if "VERIF_SCRATCH" not in os.environ and os.path.isdir("/dev/shm") and os.access("/dev/shm", os.W_OK):
+        fast_root = tempfile.mkdtemp(prefix="vf-run-", dir="/dev/shm")
+        roots.append(fast_root)
+        os.environ["VERIF_RUN_ROOT_FAST"] = fast_root
+    outdir = tempfile.mkdtemp(prefix="vf-res-", dir=run_root)
     shards = only_shards if only_shards is not None else list(range(nshards))
-    with ThreadPoolExecutor(max_workers=max(1, args.jobs)) as ex:
-        results = list(ex.map(lambda s: run_one_shard(prop, tier, seed, s, nshards, timeout, outdir), shards))
     try:
-        os.rmdir(outdir)
-    except OSError:
-        pass
+        with ThreadPoolExecutor(max_workers=max(1, args.jobs)) as ex:
+            results = list(ex.map(lambda s: run_one_shard(prop, tier, seed, s, nshards, timeout, outdir), shards))
+    finally:
+        for r_ in roots:
+            shutil.rmtree(r_, ignore_errors=True)
 
     # ---------------------------------------------------------------- merge
     evaluations = 0
